@@ -4,6 +4,8 @@ import (
 	"context"
 	"iter"
 	"sync/atomic"
+
+	"github.com/openfga/openfga/internal/verifhook"
 )
 
 // kind distinguishes data nodes from the sentinel that terminates the list.
@@ -60,13 +62,17 @@ func NewAccumulator[T any]() *Accumulator[T] {
 // It is safe to call Close multiple times from different goroutines;
 // only the first call has any effect.
 func (a *Accumulator[T]) Close() {
+	verifhook.Yield("K_swp")
 	if a.closed.Swap(true) {
 		return
 	}
 	var n node[T]
 	n.Kind = end
+	verifhook.Yield("K_hd")
 	oldHead := a.head.Swap(nil)
+	verifhook.Yield("K_lnk")
 	oldHead.Next.Store(&n)
+	verifhook.Yield("K_cl")
 	close(a.done)
 }
 
@@ -82,14 +88,18 @@ func (a *Accumulator[T]) Send(value T) bool {
 	var sent bool
 
 	for {
+		verifhook.Yield("A_ld")
 		currentHead := a.head.Load()
 		if currentHead == nil {
 			break
 		}
+		verifhook.Yield("A_cas")
 		if !a.head.CompareAndSwap(currentHead, &head) {
 			continue
 		}
+		verifhook.Yield("A_lnk")
 		currentHead.Next.Store(&head)
+		verifhook.Yield("A_sig")
 		select {
 		case a.signal <- struct{}{}:
 		default:
@@ -97,6 +107,7 @@ func (a *Accumulator[T]) Send(value T) bool {
 		sent = true
 		break
 	}
+	verifhook.Yield("A_ret")
 	return sent
 }
 
@@ -109,10 +120,12 @@ func (a *Accumulator[T]) Recv(ctx context.Context) (T, bool) {
 
 PopLoop:
 	for {
+		verifhook.Yield("B_ld")
 		currentTail := a.tail
 		nextNode := currentTail.Next.Load()
 
 		if nextNode == nil {
+			verifhook.Yield("B_park")
 			select {
 			case <-a.signal:
 			case <-a.done:
@@ -131,6 +144,7 @@ PopLoop:
 		a.tail = nextNode
 		break
 	}
+	verifhook.Yield("B_ret")
 	return value, ok
 }
 
